@@ -91,6 +91,7 @@ type ContractSet struct {
 	Funcs  map[string]*SpecFunc
 	Macros map[string]*SpecMacro
 	GhostFields map[string]bool
+	GhostConst  map[string]bool
 	Registries  map[string]*Registry
 	Pure   []string // patterns
 	Files  []string
@@ -211,6 +212,21 @@ func (cs *ContractSet) loadFile(path string) error {
 				cs.Registries = map[string]*Registry{}
 			}
 			cs.Registries[r.Global] = r
+			continue
+		}
+		if strings.HasPrefix(l, "spec ghostconst ") {
+			if cs.GhostFields == nil {
+				cs.GhostFields = map[string]bool{}
+			}
+			if cs.GhostConst == nil {
+				cs.GhostConst = map[string]bool{}
+			}
+			for _, p := range strings.Split(l[len("spec ghostconst "):], ",") {
+				if p = strings.TrimSpace(p); p != "" {
+					cs.GhostFields[p] = true
+					cs.GhostConst[p] = true
+				}
+			}
 			continue
 		}
 		if strings.HasPrefix(l, "spec ghost ") {
